@@ -56,7 +56,7 @@ def build(ctx, tier):
         name, s = ns
         text = gen.jdf_text(name, s)
         open(os.path.join(gdir, name + '.jdf'), 'w').write(text)
-        gkey = sha((text + ptgpp_id).encode())
+        gkey = sha((name + '|' + text + ptgpp_id).encode())
         gc, gh = os.path.join(cache, 'gen-' + gkey + '.c'), os.path.join(cache, 'gen-' + gkey + '.h')
         if not (os.path.exists(gc) and os.path.exists(gh)):      # generated code is cached per (jdf text, ptgpp binary)
             r = subprocess.run([ptgpp, '-E', '--noline', '--Wremoteref', '-i', name + '.jdf', '-o', name, '-f', name], cwd=gdir, capture_output=True, text=True)
